@@ -56,7 +56,15 @@ def internal_failures(sim):
     for l in sim.world.logged:
         if l.split(":")[0] not in DOCUMENTED_LOG:
             out.append(("logged error", l))
+    out += swallowed_no_transitions(sim.world, out)
     return out
+
+
+def swallowed_no_transitions(world, already):
+    """'no state machine receives an input it has no transition for' - also when the exception ends up inside a Deferred nobody looks at"""
+    seen = " ".join(d for (_, d) in already)
+    return [("state machine input without a transition (exception swallowed by a Deferred)", "NoTransition: " + t)
+            for t in getattr(world, "no_transitions", []) if t not in seen]
 
 
 class Explore(_Explore):
@@ -96,6 +104,10 @@ FS_CONFIGS = {
 class FNoFailure(FS.FExplore):
     configs = FS_CONFIGS
 
+    def free_actions(self, sim):
+        # legal use only: a write after the local close is the application's own error (what the subchannel answers to it is C13's subject)
+        return [a for a in FS.FExplore.free_actions(self, sim) if a[0] != "write_after_close"]
+
     def final_phase(self, sim):
         did = False
         for a in list(sim.enabled()):
@@ -119,6 +131,7 @@ class FNoFailure(FS.FExplore):
         for l in sim.w.logged:
             if l.split(":")[0] not in DOCUMENTED_LOG:
                 out.append(("logged error", l))
+        out += swallowed_no_transitions(sim.w.mw, out)
         return out
 
     def classify(self, label):
